@@ -379,5 +379,8 @@ fn main() {
         t
     });
     let _ = BigInt::zero();
+    // the whole exploration once more against the subject built WITHOUT its `std` feature (the first Newton guess comes from libm::exp2 instead of f64::exp2)
+    run.bound("build_variants", "std (this process) + no_std (child process, same domain)");
+    run.variant("no_std");
     run.finish();
 }
